@@ -33,13 +33,13 @@ META = {
     "property_id": "C06",
     "design_ref": "DESIGN.md §4 C06 (+ §3.5 ranks, §6 F6/F7, Appendix B.2)",
     "technique": "Coq proof (induction over histories, invariant over all schedules of a small-step semantics) on a cluster model generic in the per-block computation + correspondence on an in-process rank simulator (bit-exact, evaluated by vm_compute) + certified checker on observed per-rank parameters/logs; real gloo processes cross-check the simulator in the thorough tier",
-    "level_text": "Theorems for every world size, every divisor group size, every block->rank assignment, every history (Dist*.v): under no_starvation the cluster equals the single-process optimizer whose communicated quantity is rounded to the communication dtype (ddp_lowprec_eq_rounded_serial; ddp_eq_serial when the cast is the identity; assignment independence; replicas agree), all ranks of a group issue the same collectives (collective_logs_equal), every maximal schedule of the small-step semantics ends finished in the lock-step state and none deadlocks (interleaving_irrelevant, schedules_terminate). all ranks issue the same process-group creations over the whole run for every history (creation_logs_equal, for the constructor as repaired in /repo 48e7571). One clause of the property is REFUTED on the faithful model by a computed witness and reproduced on the implementation: rank starvation (known finding C06:rank-starvation - the skip on an empty LOCAL gradient list desynchronises the all-gathers); the other theorems carry exactly the guard no_starvation that excludes it. The pre-repair lazy creation of state meshes (F7) is kept as a refuted lemma about the p_eager_meshes = false variant. Tie: simulated clusters world 1..8, all divisor group sizes, communicate_params on/off, FP32/BF16/FP16, 5 optimizer configurations, gradient-presence histories incl. starving ones - per-rank values after every step, logs and hang sets equal the model's exactly.",
+    "level_text": "Theorems for every world size, every divisor group size, every block->rank assignment, every history (Dist*.v): under no_starvation the cluster equals the single-process optimizer whose communicated quantity is rounded to the communication dtype (ddp_lowprec_eq_rounded_serial; ddp_eq_serial when the cast is the identity; assignment independence; replicas agree), all ranks of a group issue the same collectives (collective_logs_equal), every maximal schedule of the small-step semantics ends finished in the lock-step state and none deadlocks (interleaving_irrelevant, schedules_terminate). all ranks issue the same process-group creations over the whole run for every history (creation_logs_equal, for the constructor as repaired in /repo 48e7571). For the code as it is (skip rule repaired in /repo: p_global_skip = true) the *_every_history theorems hold for EVERY gradient-presence history, including steps where every block owned by some rank lacks a gradient; the general forms carry the hypothesis p_global_skip = true \\/ no_starvation. The two repaired defects are kept as refuted lemmas about the pre-repair variants: rank starvation (F6, p_global_skip = false: C06_starvation_desync_refuted) and lazy owner-only creation of state meshes (F7, p_eager_meshes = false). Tie: simulated clusters world 1..8, all divisor group sizes, communicate_params on/off, FP32/BF16/FP16, 5 optimizer configurations, gradient-presence histories incl. starving ones - per-rank values after every step, logs and hang sets equal the model's exactly.",
     "level_note": "Trusted: Coq kernel+vm_compute; the hand-written model; harness/sim.py (stand-ins for torch.distributed/DeviceMesh/DTensor in the distributor modules' namespaces - cross-checked against real gloo processes only in the thorough tier); the optimizer mathematics per block is replayed from the implementation (oracle), only the distributor's own arithmetic (float32 add, bf16/fp16 rounding) is recomputed in Coq. The per-block independence of _per_group_step_impl is assumed by the shape of `upd` and exercised by the bit-exact serial-vs-DDP comparison.",
     "ready": True,
 }
 
 # the implementation's current behaviour w.r.t. the two modelled switches (Dist.v); flip after a repair in /repo
-GLOBAL_SKIP = False      # True once step() skips only when NO block of the group has a gradient (F6: unrepaired, known finding)
+GLOBAL_SKIP = True       # step() skips only when NO block of the group has a gradient (F6 repaired in /repo)
 EAGER_MESHES = True      # every rank creates the state meshes of all source ranks (F7 repaired in /repo by 48e7571)
 # for testing a candidate repair / a pre-fix file in a scratch copy only (like VERIF_REPO; registered commands never set these)
 if os.environ.get("VERIF_REPO", "/repo") != "/repo":
@@ -50,7 +50,9 @@ SIG_STARVATION = "C06:rank-starvation"
 SIG_MESH = "C06:lazy-owner-only-mesh-creation"
 
 THEOREMS = ["C06_ddp_lowprec_eq_rounded_serial", "C06_ddp_eq_serial", "C06_ddp_assignment_independent", "C06_ddp_replicas_agree",
-            "C06_collective_logs_equal", "C06_creation_logs_equal", "C06_interleaving_irrelevant"]
+            "C06_collective_logs_equal", "C06_creation_logs_equal", "C06_interleaving_irrelevant",
+            "C06_ddp_lowprec_eq_rounded_serial_every_history", "C06_ddp_eq_serial_every_history", "C06_ddp_replicas_agree_every_history",
+            "C06_collective_logs_equal_every_history", "C06_interleaving_irrelevant_every_history"]
 
 OPT_CONFIGS = {
     "shampoo_adagrad": dict(lr=0.02, betas=(0.0, 1.0), epsilon=1e-6, freq=1, start=2, graft=("adagrad", 1e-8)),
@@ -534,7 +536,7 @@ def input_signatures(spec):
     bp = block_presence(spec["presence"], nblocks)
     st = starving_steps(bp, owners, spec["gs"])
     return {"owners": owners, "nblocks": nblocks, "numels": numels, "starving_steps": st,
-            "starves": bool(st) and not GLOBAL_SKIP,
+            "starves": bool(st),     # input side of the (repaired) defect F6
             # input side of the (repaired) defect F7: several ranks per group, and every configuration used here
             # allocates optimizer state for every block (Kronecker factors / grafting)
             "lazy_mesh": spec["world"] >= 2 and spec["gs"] >= 2}
@@ -608,7 +610,10 @@ def run(ck: Check) -> None:
                   "presence": [[True, True, True]] * 3, "kind": "full", "seed": 14},
                  {"world": 4, "gs": 2, "cp": False, "cdtype": "FP32", "gs_default": False, "shapes": [[5, 3], [4]], "maxdim": 4, "opt": "shampoo_adagrad",
                   "presence": [[True, True]] * 3, "kind": "full", "seed": 15}]
-        # no starving steps in the real-process picks: a real hang costs the full timeout and proves nothing new
+        # a starving history on real processes only once the skip rule is repaired: before, the real hang costs the full
+        # timeout and proves nothing the simulator has not shown
+        if GLOBAL_SKIP:
+            picks.append(dict(F6_MINIMAL))
         for k, s in enumerate(picks):
             gl.append((base + k, s, "gloo"))
         for it in gl:       # one at a time: each spawns `world` processes
@@ -664,7 +669,9 @@ def run(ck: Check) -> None:
         if "gloo_outcome" in r:
             sig = r["sig"]
             what = f"real gloo processes: outcome {r['gloo_outcome']} (world={r['spec']['world']}, num_trainers_per_group={r['spec']['gs']})"
-            if r["gloo_outcome"] == "hang" and sig["lazy_mesh"] and 1 < r["spec"]["gs"] < r["spec"]["world"]:
+            if r["gloo_outcome"] == "hang" and sig["starves"]:
+                f6_hits.append((r, what + " - a starved rank skipped the all-gather"))
+            elif r["gloo_outcome"] == "hang" and sig["lazy_mesh"] and 1 < r["spec"]["gs"] < r["spec"]["world"]:
                 f7_hits.append((r, what + " - ranks create different process groups under the same name"))
             else:
                 other.append((r, what + " " + " ".join(r.get("gloo_errors", []))[-300:]))
@@ -736,8 +743,7 @@ def run(ck: Check) -> None:
         "the per-block search directions are replayed from the implementation run (oracle); only the distributor's own arithmetic (float32 add, bf16/fp16 round-to-nearest-even) is recomputed in Coq",
         "every rank receives the same gradients (DDP averages them before the optimizer step)",
     ]
-    ck.notes.append(f"{SIG_STARVATION} (DESIGN §6 F6) is a known finding (known_findings.json): starving histories are generated on purpose, the model (p_global_skip = false) predicts the implementation's desynchronisation exactly, and C06_checkb fails on exactly those scenarios; "
-                    f"{SIG_MESH} (F7) was repaired in /repo (48e7571) - the model runs with p_eager_meshes = true and a reappearance is reported under that signature")
+    ck.notes.append(f"{SIG_STARVATION} (F6) and {SIG_MESH} (F7) were repaired in /repo: the model runs with p_global_skip = p_eager_meshes = true; starving histories are generated on purpose and must pass; a reappearance is reported under these signatures")
 
 
 def replay(obj) -> bool:
